@@ -180,3 +180,8 @@ func TestVerif_C15(t *testing.T) {
 	defer s.Finish()
 	kit.Run(s, "trie_root_vs_bit_reference", kit.N{Quick: 20000, Thorough: 1000000}, c15Gen, c15Check)
 }
+
+// FuzzVerif_C15: native coverage-guided fuzzing of the trie-root differential (thorough tier).
+func FuzzVerif_C15(f *testing.F) {
+	kit.Fuzz(f, "C15", "trie_root_vs_bit_reference", c15Gen, c15Check)
+}
